@@ -506,3 +506,24 @@ T('C04', 'twin-metadata-dict-call-free', STR, '                cell[k] = {\n    
 M('C20', 'store-opens-before-parsing', SRV,
   "        body = json.loads(escape.to_unicode(self.request.body))\n        merged = body['merged']\n        merged_nb = nbformat.from_dict(merged)\n\n        # Somehow store unsolved conflicts?\n        # conflicts = body['conflicts']\n\n        with io.open(path, 'w', encoding='utf8') as f:\n            nbformat.write(merged_nb, f)",
   "        with io.open(path, 'w', encoding='utf8') as f:\n            body = json.loads(escape.to_unicode(self.request.body))\n            merged = body['merged']\n            merged_nb = nbformat.from_dict(merged)\n            nbformat.write(merged_nb, f)", 'R20.7')
+
+# ------------------------------------------------------------------------------------------ rules added after the independently seeded changes
+M('C08', 'status-is-a-count', APP, "    returncode = 1 if conflicted else 0", "    returncode = len(conflicted)", 'R08.1')
+T('C08', 'twin-status-min', APP, "    returncode = 1 if conflicted else 0", "    returncode = min(len(conflicted), 1)")
+M('C02', 'compare-grid-cache-by-value', 'nbdime/diffing/seq_bruteforce.py', '    return [[compare(a, b) for b in B] for a in A]',
+  '    seen = {}\n    out = []\n    for a in A:\n        row = []\n        for b in B:\n            try:\n                r = seen[a, b]\n            except (KeyError, TypeError):\n                r = compare(a, b)\n            row.append(r)\n        out.append(row)\n    return out', 'R02.5')
+M('C02', 'differ-custom-line-splitter', 'nbdime/diffing/sequences.py', '    lines_a = a.splitlines(True)\n    lines_b = b.splitlines(True)\n',
+  '    lines_a = _split_lines(a)\n    lines_b = _split_lines(b)\n', 'R02.6',
+  edits=[('nbdime/diffing/sequences.py', 'def diff_strings_linewise(a, b):', 'def _split_lines(s):\n    import re\n    return re.findall(r"[^\\n]*\\n|[^\\n]+", s)\n\n\ndef diff_strings_linewise(a, b):')])
+T('C02', 'twin-splitlines-via-helper', 'nbdime/diffing/sequences.py', '    lines_a = a.splitlines(True)\n    lines_b = b.splitlines(True)\n',
+  '    lines_a = _lines(a)\n    lines_b = _lines(b)\n',
+  edits=[('nbdime/diffing/sequences.py', 'def diff_strings_linewise(a, b):', 'def _lines(s):\n    return s.splitlines(True)\n\n\ndef diff_strings_linewise(a, b):')])
+M('C01', 'patcher-splits-on-newline', DU, '    if isinstance(a, str):\n        a = a.splitlines(True)', "    if isinstance(a, str):\n        a = [l + '\\n' for l in a.split('\\n')]", 'R01.4')
+M('C07', 'all-transients-early-true', MG, '            elif not is_diff_all_transients(d.diff, subpath, transients):\n                return False',
+  '            else:\n                return is_diff_all_transients(d.diff, subpath, transients)', 'R07.4')
+M('C17', 'subdirs-innermost-first', GF, '            popped.appendleft(pop)', '            popped.append(pop)', 'R17.5')
+T('C17', 'twin-subdirs-list-insert', GF, '            popped.appendleft(pop)', '            popped.insert(0, pop)')
+M('C10', 'conflict-tagged-with-strategy', MG, '                decisions.local_then_remote(path, d0, d1, conflict=True)', '                decisions.local_then_remote(path, d0, d1, conflict=True, strategy=list_strategy)', 'R10.4')
+M('C20', 'stream-not-rewound', SRV, "                # Assume arg is file-like\n                arg.seek(0)\n", "                # Assume arg is file-like\n", 'R20.8')
+M('C11', 'patch-keyed-by-target-index', GEN, '                    di.patch(i + k, cd)  # FIXME', '                    di.patch(j + k, cd)  # FIXME', 'R11.5')
+M('C11', 'mime-entry-keyed-by-lowercase', NBD, '        if dd:\n            diffbuilder.patch(key, dd)', '        if dd:\n            diffbuilder.patch(mimetype, dd)', 'R11.6')
